@@ -73,12 +73,14 @@ def explore(ctx, shards, increments, reserve=20):
                 stages.append(("%s at depth +%d" % (f, k), idx))
     best = [None] * len(shards)
     log, load, complete = [], 1.5, True
+    usec = [10.0]                                 # CPU microseconds per transition, re-measured after every stage
     stopped_fams = set()
     for label, items in stages:
         fam = shards[items[0][0]]["fam"] if len({shards[i]["fam"] for i, _ in items}) == 1 else None
         if fam in stopped_fams:
             continue
-        # prediction from each shard's previous run: cpu x growth of its last level x (d/(d-1))
+        # prediction from each shard's previous run: transitions of the new level = last level x its growth, times the
+        # measured cost of a transition (which grows with the length of the history to replay)
         pred = []
         for i, d in items:
             r = best[i]
@@ -86,8 +88,9 @@ def explore(ctx, shards, increments, reserve=20):
                 pred.append(0.3)
                 continue
             lt = r["level_transitions"]
-            g = max(2.0, lt[-1] / lt[-2]) * d / max(1, d - 1)
-            pred.append(max(0.1, r["cpu_s"] - 0.25) * g ** (d - r["depth"]))
+            g = max(2.0, lt[-1] / lt[-2])
+            trans = r["transitions"] + sum(lt[-1] * g ** k for k in range(1, d - r["depth"] + 1))
+            pred.append(0.3 + trans * usec[0] * 1e-6 * d / max(1, r["depth"]))
         predicted = load * max(sum(pred) / common.NCPU, max(pred))
         if best[items[0][0]] is not None and predicted > ctx.deadline.left() - reserve:
             common.log("lmmx: stage '%s' not started (predicted %.0fs, %.0fs left)" % (label, predicted, ctx.deadline.left()))
@@ -110,6 +113,9 @@ def explore(ctx, shards, increments, reserve=20):
         for (i, d), r in zip(items, res):
             best[i] = r
         cpu = sum(r["cpu_s"] for r in res)
+        big = [r for r in res if r["transitions"] > 50000]
+        if big:
+            usec[0] = max(3.0, min(60.0, 1e6 * sum(r["cpu_s"] for r in big) / sum(r["transitions"] for r in big)))
         if cpu > 4:
             load = max(1.0, min(3.0, dt / max(cpu / common.NCPU, max(r["cpu_s"] for r in res))))
         log.append({"stage": label, "wall_s": round(dt, 1), "cpu_s": round(cpu, 1), "shards": len(items),
